@@ -169,6 +169,9 @@ def extra_terms(tier):
     add(Seq((M('a', B),), ext=True, adds=(M('x', inner_cho), M('y', Of(inner, size=Rng(0, 2)), 'O'))),
         'seq-adds-nested-cho-of')
     add(Of(inner_cho, size=Rng(0, 2)), 'of-cho-adds')
+    # inline SEQUENCE / SET as the element of SEQUENCE OF (EXTENSIBILITY IMPLIED reaches nested definitions)
+    add(Of(Seq((M('a', B), M('b', U8, 'O'))), size=Rng(0, 2)), 'of-inline-seq')
+    add(Seq((M('l', Of(Seq((M('a', Tag(0, U8)), M('b', Tag(1, B))), is_set=True), is_set=True)),)), 'seq-of-inline-set')
 
     # ENUMERATED values < 0, 127/128, > 32767 next to preambles and inside additions
     add(Seq((M('o', B, 'O'), M('e', ENUM_WIDE), M('t', U8)), ext=True, adds=(M('f', ENUM_WIDE, 'O'),)),
